@@ -2,6 +2,8 @@ SPECIFICATION TSpec
 CONSTANTS
   Dev = {}
   Enforce = {"C04", "C05"}
+  Inventory = FALSE
+  Expect = FALSE
   TraceFile = "trace.ndjson"
 CONSTRAINT HighWater
 POSTCONDITION Accepted
